@@ -4,12 +4,14 @@ import Libp2pModel.Model.C27
 Line protocol of C27 (one case = one network of real gossipsub nodes):
 
 ```
-case <idx> <class> nt=<b> n=<n> flood=<0|1> auth=<s|a> meshn=<k> adj=<l0;l1;…>
+case <idx> <class> nt=<b> n=<n> flood=<0|1> auth=<s|a> meshn=<k> val=<nodes with validate_messages> adj=<l0;l1;…>
 op hb <k>                          impl ok                 k heartbeats were run to quiescence
 op snap <mesh lists> <explicit lists>   impl ok            forwarding sets used from now on
 op pub <mid> <s> <recips> <e|h>    impl sent <recips>      publish on node s; recips = oracle
 op recv <mid> <u> <v>              impl first <fwd> | dup  v handled the copy sent by u (exact)
 op recvx <mid> <u> <v>             impl first <fwd> | dup  same, no exact prediction (`model -`)
+op verdict <mid> <v> <a|r|i>        impl fwd <fwd> | dropped | none   v's application reported its verdict
+op verdictx <mid> <v> <a|r|i>       same, no exact prediction
 op quiet <mid>                     impl dlv <nodes>        network quiescent; nodes delivered to
 op quietx <mid>                    impl dlv <nodes>        same, at-least-once clause not applied
 op sendx <mid> <u> <w>             impl ok                 u answered an IWANT of w (Spec only)
@@ -23,8 +25,9 @@ structure Msg where
   mid : Nat
   cfg : Cfg
   st : State
-  got : List Node
+  mon : Mon := {}
   src : List (Node × Node) := []
+  clean : Bool := true
 
 structure DS where
   n : Nat := 0
@@ -34,6 +37,7 @@ structure DS where
   adj : List (List Nat) := []
   mesh : List (List Nat) := []
   exp : List (List Nat) := []
+  valid : List Nat := []
   msgs : List Msg := []
 
 def kv (cfg : List String) (k : String) : Option String :=
@@ -54,6 +58,7 @@ def init (cfg : List String) : DS :=
     flood := kv cfg "flood" == some "1"
     anon := kv cfg "auth" == some "a"
     meshN := ((kv cfg "meshn").bind String.toNat?).getD 0
+    valid := ((kv cfg "val").bind natList).getD []
     adj := ((kv cfg "adj").bind lists).getD [] }
 
 def DS.fwdOf (d : DS) (v : Nat) : List Nat :=
@@ -64,7 +69,8 @@ def DS.mkCfg (d : DS) (s : Nat) (recips : List Nat) : Cfg :=
     fwd := d.fwdOf
     pub := s
     recips := recips
-    source := if d.anon then none else some s }
+    source := if d.anon then none else some s
+    validate := fun v => d.valid.contains v }
 
 def subset (a b : List Nat) : Bool := a.all fun x => b.contains x
 
@@ -91,6 +97,22 @@ def showOut : Out → String
   | .dup => "dup"
   | .selfOrigin => "selforigin"
   | .noflight => "noflight"
+  | .hold => "first -"
+  | .forwarded r => "fwd " ++ showNatList (sortNat r)
+  | .dropped => "dropped"
+  | .noheld => "none"
+
+def parseVerdict : String → Option Verdict
+  | "a" => some .accept
+  | "r" => some .reject
+  | "i" => some .ignore
+  | _ => none
+
+def parseVOut : List String → Option Out
+  | ["fwd", r] => (natList r).map Out.forwarded
+  | ["dropped"] => some .dropped
+  | ["none"] => some .noheld
+  | _ => none
 
 def parseOut : List String → Option Out
   | ["first", r] => (natList r).map Out.first
@@ -113,7 +135,7 @@ def op (d : DS) (args : List String) : DS × String :=
     match mid.toNat?, s.toNat?, natList recips with
     | some mid, some s, some recips =>
       let cfg := d.mkCfg s recips
-      let d' := d.put { mid := mid, cfg := cfg, st := publish cfg, got := [] }
+      let d' := d.put { mid := mid, cfg := cfg, st := publish cfg }
       if d.validRecips s recips then (d', "sent " ++ showNatList (sortNat recips))
       else (d', "invalid-choice")
     | _, _, _ => (d, "bad-op")
@@ -122,18 +144,25 @@ def op (d : DS) (args : List String) : DS × String :=
     | some mid, some u, some v =>
       match d.find mid with
       | some m =>
-        let (st', o) := recv m.cfg m.st (u, v)
+        let (st', o) := step m.cfg m.st (.recv u v)
         (d.put { m with st := st' }, showOut o)
       | none => (d, "unknown-message")
     | _, _, _ => (d, "bad-op")
+  | ["verdict", mid, v, a] =>
+    match mid.toNat?.bind d.find, v.toNat?, parseVerdict a with
+    | some m, some v, some a =>
+      let (st', o) := step m.cfg m.st (.verdict v a)
+      (d.put { m with st := st' }, showOut o)
+    | _, _, _ => (d, "bad-op")
   | ["recvx", _, _, _] => (d, "-")
+  | ["verdictx", _, _, _] => (d, "-")
   | ["sendx", _, _, _] => (d, "-")
   | ["quiet", mid] =>
     match mid.toNat?.bind d.find with
     | some m =>
-      if m.st.flight.isEmpty then
+      if m.st.flight.isEmpty && m.st.held.isEmpty then
         (d, "dlv " ++ showNatList (sortNat (m.st.delivered.map Prod.fst)))
-      else (d, "inflight " ++ toString m.st.flight.length)
+      else (d, "inflight " ++ toString (m.st.flight.length + m.st.held.length))
     | none => (d, "unknown-message")
   | ["quietx", _] => (d, "-")
   | ["livelock"] => (d, "quiescent")
@@ -158,7 +187,7 @@ def spec (d : DS) (args outs : List String) : DS × String :=
       match natList r with
       | some recips =>
         let cfg := d.mkCfg s recips
-        (d.put { mid := mid, cfg := cfg, st := publish cfg, got := [] }, verdict (specPub cfg))
+        (d.put { mid := mid, cfg := cfg, st := publish cfg }, verdict (specPub cfg))
       | none => (d, "FAIL:unparsable")
     | _, _, _ => (d, "FAIL:publish_failed")
   | [k, mid, u, v] =>
@@ -168,8 +197,15 @@ def spec (d : DS) (args outs : List String) : DS × String :=
         match d.find mid with
         | some m =>
           let src' := match o with | .first _ => (v, u) :: m.src | _ => m.src
-          (d.put { m with got := gotAfter m.got v o, src := src' }, verdict (specRecv m.cfg m.got u v o))
+          (d.put { m with mon := monAfter m.mon (.recv u v) o, src := src' },
+            verdict (specRecv m.cfg m.mon u v o))
         | none => (d, "FAIL:unknown_message")
+      | _, _, _, _ => (d, "FAIL:unparsable")
+    else if k == "verdict" || k == "verdictx" then
+      match mid.toNat?.bind d.find, u.toNat?, parseVerdict v, parseVOut outs with
+      | some m, some node, some _, some o =>
+        let clean' := match o with | .dropped => false | _ => m.clean
+        (d.put { m with clean := clean' }, verdict (specVerdict m.cfg m.mon node o))
       | _, _, _, _ => (d, "FAIL:unparsable")
     else if k == "sendx" then
       match mid.toNat?.bind d.find, u.toNat?, v.toNat? with
@@ -181,8 +217,8 @@ def spec (d : DS) (args outs : List String) : DS × String :=
     | some m, ["dlv", l] =>
       match natList l with
       | some dlv =>
-        if k == "quiet" then (d, verdict (specQuiet m.cfg dlv))
-        else if k == "quietx" then (d, verdict (specQuiet { m.cfg with nodes := [] } dlv))
+        if k == "quiet" then (d, verdict (specQuiet m.cfg m.clean dlv))
+        else if k == "quietx" then (d, verdict (specQuiet { m.cfg with nodes := [] } m.clean dlv))
         else (d, "FAIL:unparsable")
       | none => (d, "FAIL:unparsable")
     | _, _ => (d, "FAIL:unparsable")
